@@ -1,4 +1,6 @@
 import Pose.Model.Batch
+import Pose.Gen.Handled
+import Pose.Gen.LTypes
 /-!
 # Helper lemmas for C06 (row-major indexing, broadcasting projections). Core Lean only.
 -/
@@ -777,94 +779,972 @@ theorem scatter_valid {s si ssrc : Shape} {dim : Nat} {index : Nat → Nat} (hd 
       rw [getD_set]; simp [Ne.symm hk]
   · left; exact ⟨rfl, rfl⟩
 
-/-! ### `retain_ltype` -/
+
+
+/-! ### the core of `broadcast_itemwise` (restated in `Proofs/Props/C06.lean`) -/
+
+/-- The broadcast of two scalar batches only: a scalar result forces both operands to be scalar batches
+(this is when the code substitutes `shape = (1,)`). -/
+theorem broadcast_nil' {a b : Shape} (h : broadcastShapes a b = some []) : a = [] ∧ b = [] := by
+  unfold broadcastShapes at h
+  simp only at h
+  have hl := bzip_length h
+  rw [padTo_length (Nat.le_max_left _ _)] at hl
+  have ha : a.length = 0 := by have := Nat.le_max_left a.length b.length; simp at hl; omega
+  have hb : b.length = 0 := by have := Nat.le_max_right a.length b.length; simp at hl; omega
+  exact ⟨List.eq_nil_of_length_eq_zero ha, List.eq_nil_of_length_eq_zero hb⟩
+
+
+/-- **Broadcast = item by item.** For every pair of broadcastable lshapes (any rank including none, any
+extents including 0), every item-level kernel `f` and every output multi-index `i`:
+the op site returns lshape `broadcastShapes …`, and `out[i] = f (x[π₁ i]) (y[π₂ i])` with `π` the torch
+broadcasting projections; the last extent is the kernel's `dOut` (the declared fall-back `dDecl` only when
+the batch is empty). -/
+theorem broadcast_itemwise' {α β γ : Type} (f : α → β → γ) (dOut dDecl : Nat) (hd : 0 < dOut)
+    (x : T α) (y : T β) (out : Shape) (h : broadcastShapes x.shape y.shape = some out) :
+    ∃ r, binop f dOut dDecl x y = some r ∧ r.shape = out ∧
+      r.last = (if numel out = 0 then dDecl else dOut) ∧
+      ∀ i, inb out i → r.get i = f (x.get (proj x.shape i)) (y.get (proj y.shape i)) := by
+  have hn : numel (if out = [] then [1] else out) = numel out := by
+    by_cases ho : out = []
+    · subst ho; simp [numel]
+    · simp [ho]
+  unfold binop broadcastInputs
+  simp only [h, hn]
+  by_cases h0 : numel out = 0
+  · -- empty batch: `dim = dDecl`, `view(out_shape + (dDecl,))` of 0 scalars
+    simp only [h0, Nat.zero_mul, ne_eq, not_true_eq_false, if_false, viewLast, if_true]
+    refine ⟨_, rfl, rfl, rfl, ?_⟩
+    intro i hi
+    have := numel_pos_of_inb hi
+    omega
+  · have hne : numel out * dOut ≠ 0 := Nat.mul_ne_zero h0 (by omega)
+    simp only [hne, ne_eq, not_false_eq_true, if_true, viewLast, h0, if_false, Nat.mul_mod_right]
+    have hdiv : numel out * dOut / numel out = dOut := Nat.mul_div_cancel_left _ (by omega)
+    refine ⟨_, rfl, rfl, by simp [hdiv], ?_⟩
+    intro i hi
+    simp only [Out.get, flatExpand]
+    by_cases ho : out = []
+    · subst ho
+      obtain ⟨ha, hb⟩ := broadcast_nil' h
+      cases i with
+      | nil => simp [ha, hb, proj, projEq, unravel, ravel]
+      | cons _ _ => simp [inb] at hi
+    · simp only [ho, if_false]
+      rw [unravel_ravel' hi]
+
+
+/-- Corollary in the form the op sites use it (`dDecl = dOut`): the last extent is always the documented one,
+including for empty batches (the `dim = … else p.shape[-1]` branch). -/
+theorem broadcast_lastdim' {α β γ : Type} (f : α → β → γ) (d : Nat) (hd : 0 < d)
+    (x : T α) (y : T β) (out : Shape) (h : broadcastShapes x.shape y.shape = some out) :
+    ∃ r, binop f d d x y = some r ∧ r.shape = out ∧ r.last = d := by
+  obtain ⟨r, h1, h2, h3, _⟩ := broadcast_itemwise' f d d hd x y out h
+  exact ⟨r, h1, h2, by rw [h3]; split <;> rfl⟩
+
+
+/-! ### corollaries and table facts (not clause-carrying: kept out of the property file)
+
+* `unop_itemwise`, `unopFlat_itemwise`: `unop` is a map by definition; `broadcast_inputs(x, None)` has no caller in the library.
+* `binop_local`, `unop_local`: cannot fail for the MODEL — its kernel `f` is per item by type.  Whether the implementation
+  takes batch-level `.any()/.all()` decisions is decided by the `regime` stream (mixed-regime batches vs the same call on each
+  item alone), not by these statements.
+* `sig_*`, `ltypes_structure`, `mulSig_table`: `decide` over the model's own tables; the tie to the code is the `sig` stream.
+* `effect_*`, `handled_*_pure`: about the memory effect table of the torch functions in `HANDLED_FUNCTIONS`, not about the
+  pypose API the non-mutation clause talks about (that clause: purity monitor + the static lint `source_purity`).
+* `broadcastShapes_eq_torch`: two models of torch's loop agree (the tie to torch is the `torchb` stream). -/
+
+/-- the broadcast result is unique and not broadcastable means: no lshape satisfies the rule -/
+theorem broadcast_none_iff (a b : Shape) : broadcastShapes a b = none ↔ ¬ ∃ out, broadcastShapes a b = some out := by
+  cases broadcastShapes a b <;> simp
+
+
+/-- **`broadcastShapes` is what torch computes**: the loop of `torch._refs._broadcast_shapes` (initialise with ones, merge
+every shape from the trailing end, positions a shape lacks stay) returns the same lshape — or raises — for every pair
+of shapes of every rank, extents 0 and 1 included. -/
+theorem broadcastShapes_eq_torch (a b : Shape) : broadcastShapes a b = torchBroadcast a b := by
+  rw [broadcastShapes_eq_bcastRev _ a b rfl]
+  unfold torchBroadcast
+  simp only
+  rw [mergeRev_ones _ _ (by simp; exact Nat.le_max_left _ _)]
+  simp only [List.length_reverse]
+  have := mergeRev_pad a.reverse b.reverse
+  simp only [List.length_reverse] at this
+  rw [this]
+
+
+example : torchBroadcast [2, 1, 3] [4, 1] = some [2, 4, 3] ∧ torchBroadcast [0, 3] [3] = some [0, 3] ∧
+    torchBroadcast [2] [3] = none ∧ torchBroadcast [] [1, 0] = some [1, 0] := by decide
+
+
+
+/-- Unary ops act item by item and keep the lshape — for every shape. -/
+theorem unop_itemwise {α γ : Type} (f : α → γ) (d : Nat) (x : T α) (i : List Nat) :
+    (unop f d x).shape = x.shape ∧ (unop f d x).last = d ∧ (unop f d x).get i = f (x.get i) := by
+  simp [unop, Out.get, T.get]
+
+
+/-- The `broadcast_inputs(x, None)` route (flatten, kernel, view back) is the same item-wise map, for every
+shape including empty ones. -/
+theorem unopFlat_itemwise {α γ : Type} (f : α → γ) (d : Nat) (hd : 0 < d) (x : T α) :
+    unopFlat f d d x = some (unop f d x) := by
+  unfold unopFlat broadcastInput1 unop
+  simp only
+  by_cases h0 : numel x.shape = 0
+  · simp [h0, viewLast]
+  · have hne : numel x.shape * d ≠ 0 := Nat.mul_ne_zero h0 (by omega)
+    simp only [hne, ne_eq, not_false_eq_true, if_true, viewLast, h0, if_false, Nat.mul_mod_right]
+    rw [Nat.mul_div_cancel_left _ (by omega)]
+
+
+/-- **An output item depends only on the two items it is paired with** (no batch-level decision): changing any
+other item of either operand — same shapes — leaves `out[i]` unchanged. This is the clause a batch-level
+`.any()/.all()` switch violates. -/
+theorem binop_local {α β γ : Type} (f : α → β → γ) (d : Nat) (hd : 0 < d) (x x' : T α) (y y' : T β) (out : Shape)
+    (hx : x'.shape = x.shape) (hy : y'.shape = y.shape) (h : broadcastShapes x.shape y.shape = some out)
+    (i : List Nat) (hi : inb out i)
+    (hxi : x'.get (proj x.shape i) = x.get (proj x.shape i)) (hyi : y'.get (proj y.shape i) = y.get (proj y.shape i)) :
+    ∃ r r', binop f d d x y = some r ∧ binop f d d x' y' = some r' ∧ r'.shape = r.shape ∧ r'.get i = r.get i := by
+  obtain ⟨r, h1, h2, _, h4⟩ := broadcast_itemwise' f d d hd x y out h
+  have h' : broadcastShapes x'.shape y'.shape = some out := by rw [hx, hy]; exact h
+  obtain ⟨r', h1', h2', _, h4'⟩ := broadcast_itemwise' f d d hd x' y' out h'
+  refine ⟨r, r', h1, h1', by rw [h2, h2'], ?_⟩
+  rw [h4 i hi, h4' i hi, hx, hy, hxi, hyi]
+
+
+/-- the unary version: `out[i]` depends on `x[i]` only -/
+theorem unop_local {α γ : Type} (f : α → γ) (d : Nat) (x x' : T α) (_hs : x'.shape = x.shape) (i : List Nat)
+    (hxi : x'.get i = x.get i) : (unop f d x').get i = (unop f d x).get i := by
+  rw [(unop_itemwise f d x' i).2.2, (unop_itemwise f d x i).2.2, hxi]
+
+
+/-- The only listed function whose result is not a selection of input items is `scatter_add`; the only ones
+addressed by scalar positions are `take` and `masked_select`. -/
+theorem handled_nonselection : ∀ n ∈ PP.Gen.handled,
+    (semOf n = some Sem.accumulate → n = "scatter_add") ∧
+    (semOf n = some Sem.element → n = "take" ∨ n = "masked_select") := by decide
+
+
+/-- structure of the table: an algebra has dimension = manifold, its group one more; both share embedding and manifold -/
+theorem ltypes_structure : ∀ t ∈ LT.all,
+    t.algebra.onManifold = true ∧ t.group.onManifold = false ∧ t.group.dim = t.algebra.dim + 1 ∧
+    t.group.dims.2.1 = t.group.dim ∧ t.algebra.dims.2.1 = t.group.dim ∧ t.algebra.manifold = t.group.manifold ∧
+    t.algebra.dim = t.algebra.manifold := by decide
+
+
+/-- Exp and Log are defined exactly on algebras / groups and are mutually inverse on ltypes -/
+theorem sig_exp_log : ∀ t ∈ LT.all,
+    ((sig .Exp t).isSome = t.onManifold) ∧ ((sig .Log t).isSome = !t.onManifold) ∧
+    (t.onManifold = true → sig .Exp t = some (.lie t.group) ∧ sig .Log t.group = some (.lie t)) ∧
+    (t.onManifold = false → sig .Log t = some (.lie t.algebra) ∧ sig .Exp t.algebra = some (.lie t)) := by decide
+
+
+/-- every LieTensor an op returns passes the constructor's shape assertion, for every lshape: the `LieTensor(out, ltype=…)`
+wrapping inside the ops never trips `__init__`'s check -/
+theorem sig_init_ok (op : Op) (t r : LT) (ls : Shape) (_h : sig op t = some (.lie r)) : initOk r ((Res.lie r).shape ls) = true := by
+  simp [initOk, Res.shape]
+
+
+/-- the item width the binary op sites pass to `view` (`dOut`) is the dimension of the ltype they wrap the result in -/
+theorem sig_binop_dout : ∀ t ∈ LT.all, t.onManifold = false →
+    sig .Mul t = some (.lie t) ∧ sig .Retr t = some (.lie t) ∧ sig .add t = some (.lie t) ∧
+    sig .Adj t = some (.lie t.algebra) ∧ sig .AdjT t = some (.lie t.algebra) ∧ sig .Jinvp t = some (.lie t.algebra) ∧
+    t.algebra.dim = t.manifold := by decide
+
+
+/-- group-only ops raise on algebras; `Jr` exists for SO3 / so3 only -/
+theorem sig_errors : ∀ t ∈ LT.all,
+    (t.onManifold = true → sig .Mul t = some (.lie t) ∧ sig .Act3 t = none ∧ sig .Act4 t = none ∧ sig .Retr t = none ∧ sig .Adj t = none ∧
+      sig .AdjT t = none ∧ sig .Jinvp t = none ∧ sig .Log t = none) ∧
+    ((sig .Jr t).isSome = decide (t.group = LT.SO3)) := by decide
+
+
+/-- a batched binary op site returns, for every broadcastable lshape pair, exactly the shape of the signature table:
+broadcast lshape followed by the result ltype's dimension — and that shape passes `LieTensor.__init__` -/
+theorem op_result_shape {α β γ : Type} (f : α → β → γ) (op : Op) (t r : LT) (hs : sig op t = some (.lie r)) (x : T α) (y : T β)
+    (out : Shape) (h : broadcastShapes x.shape y.shape = some out) :
+    ∃ res, binop f r.dim r.dim x y = some res ∧ res.shape ++ [res.last] = (Res.lie r).shape out ∧
+      initOk r (res.shape ++ [res.last]) = true := by
+  have hd : 0 < r.dim := by cases r <;> decide
+  obtain ⟨res, h1, h2, h3⟩ := broadcast_lastdim' f r.dim hd x y out h
+  refine ⟨res, h1, by simp [Res.shape, h2, h3], by simp [initOk, h3]⟩
+
+
+example : sig .Exp .se3 = some (.lie .SE3) ∧ sig .Exp .SE3 = none ∧ sig .Jinvp .Sim3 = some (.lie .sim3) ∧ sig .Act4 .RxSO3 = some (.tensor [4]) ∧
+    sig .matrix .so3 = some (.tensor [3, 3]) ∧ sig .Jr .SE3 = none ∧ (Res.lie LT.sim3).shape [2, 0, 3] = [2, 0, 3, 7] ∧
+    initOk .SE3 [5, 7] = true ∧ initOk .SE3 [5, 8] = false := by decide
+
+/-- every handled function of the regenerated list has a memory effect in the model -/
+theorem handled_effects_defined : ∀ n ∈ PP.Gen.handled, ((semOf n).map effectOf).isSome = true := by decide
+
+
+/-- **the in-place functions of the list are exactly those the naming convention marks** (trailing underscore /
+`__setitem__`) — over the list as it is in `/repo` now -/
+theorem handled_inplace_iff_name : ∀ n ∈ PP.Gen.handled,
+    ((semOf n).map effectOf = some Effect.inplace) = (inplaceName n = true) := by decide
+
+
+/-- an effect other than `inplace` leaves every existing slot as it was (and never frees one) -/
+theorem effect_pure {α : Type} (e : Effect) (he : e ≠ .inplace) (st : Store α) (self : Nat) (val : α) :
+    (∀ s, s < st.next → (applyEffect e st self val).1.mem s = st.mem s) ∧ st.next ≤ (applyEffect e st self val).1.next := by
+  cases e with
+  | fresh =>
+    refine ⟨fun s hs => ?_, by simp [applyEffect]⟩
+    simp only [applyEffect]
+    have : s ≠ st.next := by omega
+    simp [this]
+  | view => exact ⟨fun _ _ => rfl, Nat.le_refl _⟩
+  | inplace => exact absurd rfl he
+
+
+/-- **Non-mutation of the handled functions in the model**: every function of the regenerated list whose name carries no
+trailing underscore leaves every operand slot untouched — all existing memory is bit for bit what it was. -/
+theorem handled_nonunderscore_pure {α : Type} (n : String) (hn : n ∈ PP.Gen.handled) (hu : inplaceName n = false)
+    (st : Store α) (self : Nat) (val : α) :
+    ∃ r, applyHandled n st self val = some r ∧ ∀ s, s < st.next → r.1.mem s = st.mem s := by
+  have hdef := handled_effects_defined n hn
+  have hiff := handled_inplace_iff_name n hn
+  unfold applyHandled
+  cases hs : semOf n with
+  | none => simp [hs] at hdef
+  | some sem =>
+    simp only [Option.map_some]
+    refine ⟨_, rfl, ?_⟩
+    have hne : effectOf sem ≠ .inplace := by
+      intro he
+      rw [hs] at hiff
+      simp only [Option.map_some, he, hu] at hiff
+      simp at hiff
+    exact (effect_pure (effectOf sem) hne st self val).1
+
+
+/-- **Purity over histories**: any sequence of handled functions of the regenerated list, none of which carries a trailing
+underscore, leaves every slot that existed at the start bit for bit unchanged — however long the sequence and whatever
+operands (including results of earlier calls) it uses. -/
+theorem handled_history_pure {α : Type} : ∀ (calls : List (String × Nat × α)) (st : Store α),
+    (∀ c ∈ calls, c.1 ∈ PP.Gen.handled ∧ inplaceName c.1 = false) →
+    ∃ st', runHandled st calls = some st' ∧ st.next ≤ st'.next ∧ ∀ s, s < st.next → st'.mem s = st.mem s
+  | [], st, _ => ⟨st, rfl, Nat.le_refl _, fun _ _ => rfl⟩
+  | (n, self, v) :: rest, st, h => by
+    have hc := h (n, self, v) List.mem_cons_self
+    obtain ⟨r, hr, hpure⟩ := handled_nonunderscore_pure n hc.1 hc.2 st self v
+    have hnext : st.next ≤ r.1.next := by
+      unfold applyHandled at hr
+      cases hs : semOf n with
+      | none => simp [hs] at hr
+      | some sem =>
+        simp only [hs, Option.map_some, Option.some.injEq] at hr
+        subst hr
+        cases effectOf sem <;> simp [applyEffect]
+    obtain ⟨st', h1, h2, h3⟩ := handled_history_pure rest r.1 (fun c hcm => h c (List.mem_cons_of_mem _ hcm))
+    refine ⟨st', by simp [runHandled, hr, h1], Nat.le_trans hnext h2, ?_⟩
+    intro s hs
+    rw [h3 s (by omega), hpure s hs]
+
+
+example : ((runHandled (⟨fun s => 10 * s, 2⟩ : Store Nat) [("cat", 0, 7), ("permute", 2, 8), ("index_copy", 1, 9)]).map
+    fun st => ((List.range 4).map st.mem, st.next)) = some ([0, 10, 7, 9], 4) := by decide
+
+
+/-- an in-place function writes its first operand's slot only -/
+theorem effect_inplace_local {α : Type} (st : Store α) (self : Nat) (val : α) :
+    (applyEffect .inplace st self val).2 = self ∧ (applyEffect .inplace st self val).1.mem self = val ∧
+    ∀ s, s ≠ self → (applyEffect .inplace st self val).1.mem s = st.mem s := by
+  refine ⟨rfl, by simp [applyEffect], fun s hs => by simp [applyEffect, hs]⟩
+
+
+example : inplaceName "copy_" = true ∧ inplaceName "__setitem__" = true ∧ inplaceName "__getitem__" = false ∧ inplaceName "clone" = false ∧
+    (semOf "index_copy_").map effectOf = some Effect.inplace ∧ (semOf "index_copy").map effectOf = some Effect.fresh ∧
+    (semOf "view").map effectOf = some Effect.view := by decide
+
+example : let st : Store Nat := ⟨fun s => 10 * s, 3⟩
+    ((applyHandled "cat" st 1 99).map fun r => ((List.range 4).map r.1.mem, r.1.next, r.2)) = some ([0, 10, 20, 99], 4, 3) ∧
+    ((applyHandled "copy_" st 1 99).map fun r => ((List.range 4).map r.1.mem, r.1.next, r.2)) = some ([0, 99, 20, 30], 3, 1) ∧
+    ((applyHandled "permute" st 1 99).map fun r => ((List.range 4).map r.1.mem, r.1.next, r.2)) = some ([0, 10, 20, 30], 3, 1) := by decide
+
+
+theorem cls_noparam_agrees (handled : List String) (name : String) (args res : List Obj) (h : clsIsParam args = false) :
+    (torchFunctionCls handled name args res).map (fun l => l.map (fun p => p.1.erase)) =
+      torchFunction handled name (args.map Obj.erase) (res.map Obj.erase) := by
+  unfold torchFunctionCls torchFunction
+  by_cases hc : res ≠ [] ∧ name ∈ handled
+  · have hc' : res.map Obj.erase ≠ [] ∧ name ∈ handled := ⟨by simpa using hc.1, hc.2⟩
+    rw [if_pos hc, if_pos hc']
+    cases firstLtype (args.map Obj.erase) with
+    | none => rfl
+    | some lt =>
+      simp only [Option.map_some, List.map_map, h]
+      congr 1
+      apply List.map_congr_left
+      intro o _
+      cases o <;> simp [wrapObj, Obj.erase, wrapLeaf]
+  · have hc' : ¬ (res.map Obj.erase ≠ [] ∧ name ∈ handled) := by
+      intro hh; exact hc ⟨by simpa using hh.1, hh.2⟩
+    rw [if_neg hc, if_neg hc']
+    simp [List.map_map, Function.comp_def]
+
+
+theorem mulSig_table : ∀ t ∈ LT.all,
+    mulSig t .sameLie = some (.lie t) ∧ sig .Mul t = mulSig t .sameLie ∧
+    (t.onManifold = false → mulSig t (.tensor 3) = sig .Act3 t ∧ mulSig t (.tensor 4) = sig .Act4 t ∧
+      mulSig t (.lieOther .so3) = some (.tensor [3]) ∧ mulSig t (.lieOther .rxso3) = some (.tensor [4]) ∧
+      mulSig t (.lieOther .se3) = none ∧ mulSig t (.tensor 5) = none ∧ mulSig t .scalar = none) ∧
+    (t.onManifold = true → mulSig t (.tensor 1) = some (.lie t) ∧ mulSig t .scalar = some (.lie t)) := by decide
+
+
+/-! ### `retain_ltype` (generic in the home policy; headline statements are restated in the property file) -/
 namespace Retain
 
-theorem patch_other : ∀ (fs : List Fn) (t : Table) (q : Nat), (∀ f ∈ fs, home f ≠ q) → patch t fs q = t q
+
+/-- a policy never sends a wrapper captured from a torch slot to ANOTHER torch slot -/
+def WrapOk (H : Home) : Prop := ∀ s f, H s (.wrap f) = s ∨ 3 ≤ H s (.wrap f)
+/-- an original designates its own slot -/
+def OrigOk (H : Home) : Prop := ∀ s, H s (.orig s) = s
+
+theorem homeCur_wrapOk : WrapOk homeCur := by intro s f; right; simp only [homeCur]; split <;> omega
+theorem homeCur_origOk : OrigOk homeCur := fun _ => rfl
+theorem homeSlot_wrapOk : WrapOk homeSlot := fun _ _ => Or.inl rfl
+theorem homeSlot_origOk : OrigOk homeSlot := fun _ => rfl
+
+theorem patch_other (H : Home) : ∀ (fs : List Cap) (t : Table) (q : Nat), (∀ c ∈ fs, H c.1 c.2 ≠ q) → patch H t fs q = t q
   | [], _, _, _ => rfl
-  | f :: fs, t, q, h => by
+  | c :: fs, t, q, h => by
     simp only [patch]
-    rw [patch_other fs _ q (fun g hg => h g (List.mem_cons_of_mem _ hg))]
-    have := h f (List.mem_cons_self)
+    rw [patch_other H fs _ q (fun g hg => h g (List.mem_cons_of_mem _ hg))]
+    have := h c (List.mem_cons_self)
     simp [Table.set, Ne.symm this]
 
-theorem restore_other : ∀ (fs : List Fn) (t : Table) (q : Nat), (∀ f ∈ fs, home f ≠ q) → restore t fs q = t q
+theorem restore_other (H : Home) : ∀ (fs : List Cap) (t : Table) (q : Nat), (∀ c ∈ fs, H c.1 c.2 ≠ q) → restore H t fs q = t q
   | [], _, _, _ => rfl
-  | f :: fs, t, q, h => by
+  | c :: fs, t, q, h => by
     simp only [restore]
-    rw [restore_other fs _ q (fun g hg => h g (List.mem_cons_of_mem _ hg))]
-    have := h f (List.mem_cons_self)
+    rw [restore_other H fs _ q (fun g hg => h g (List.mem_cons_of_mem _ hg))]
+    have := h c (List.mem_cons_self)
     simp [Table.set, Ne.symm this]
 
-theorem restore_hit : ∀ (fs : List Fn) (t : Table) (q : Nat) (v : Fn), (∃ f ∈ fs, home f = q) →
-    (∀ f ∈ fs, home f = q → f = v) → restore t fs q = v
+theorem restore_hit (H : Home) : ∀ (fs : List Cap) (t : Table) (q : Nat) (v : Fn), (∃ c ∈ fs, H c.1 c.2 = q) →
+    (∀ c ∈ fs, H c.1 c.2 = q → c.2 = v) → restore H t fs q = v
   | [], _, _, _, h, _ => by simp at h
-  | f :: fs, t, q, v, _, hall => by
+  | c :: fs, t, q, v, hex0, hall => by
     simp only [restore]
-    by_cases hex : ∃ g ∈ fs, home g = q
-    · exact restore_hit fs _ q v hex (fun g hg => hall g (List.mem_cons_of_mem _ hg))
-    · have hno : ∀ g ∈ fs, home g ≠ q := fun g hg hq => hex ⟨g, hg, hq⟩
-      rw [restore_other fs _ q hno]
-      have hf : home f = q := by
-        rename_i h
-        obtain ⟨g, hg, hq⟩ := h
+    by_cases hex : ∃ g ∈ fs, H g.1 g.2 = q
+    · exact restore_hit H fs _ q v hex (fun g hg => hall g (List.mem_cons_of_mem _ hg))
+    · have hno : ∀ g ∈ fs, H g.1 g.2 ≠ q := fun g hg hq => hex ⟨g, hg, hq⟩
+      rw [restore_other H fs _ q hno]
+      have hf : H c.1 c.2 = q := by
+        obtain ⟨g, hg, hq⟩ := hex0
         rcases List.mem_cons.mp hg with rfl | hg'
         · exact hq
         · exact absurd hq (hno g hg')
-      have hv := hall f List.mem_cons_self hf
-      subst hv
-      simp [Table.set, hf]
+      have hv := hall c List.mem_cons_self hf
+      simp only [Table.set, hf, if_true]
+      exact hv
 
-/-- every captured function's `(__module__, __name__)` designates the slot it was read from, or the
-pypose-side slot 3 (a wrapper) — never another protected slot -/
-def WellHomed (ord : List Nat) (t : Table) : Prop := ∀ s ∈ ord, home (t s) = s ∨ home (t s) = 3
+/-- every captured function designates the slot it was read from, or a junk slot (≥ 3) — never another torch slot -/
+def WellHomed (H : Home) (t : Table) : Prop := ∀ s, s < 3 → H s (t s) = s ∨ 3 ≤ H s (t s)
 
-theorem wellHomed_congr {ord : List Nat} (h3 : 3 ∉ ord) {t t' : Table} (h : ∀ q, q ≠ 3 → t' q = t q)
-    (hw : WellHomed ord t) : WellHomed ord t' := by
-  intro s hs
-  have : s ≠ 3 := fun e => h3 (e ▸ hs)
-  rw [h s this]; exact hw s hs
+theorem wellHomed_congr {H : Home} {t t' : Table} (h : ∀ q, q < 3 → t' q = t q) (hw : WellHomed H t) : WellHomed H t' := by
+  intro s hs; rw [h s hs]; exact hw s hs
 
-/-- patching keeps the table well homed: a written slot holds a wrapper (home 3), the others are untouched -/
-theorem wellHomed_patch {ord : List Nat} : ∀ (fs : List Fn) {t : Table}, WellHomed ord t → WellHomed ord (patch t fs)
+theorem wellHomed_patch {H : Home} (hW : WrapOk H) : ∀ (fs : List Cap) {t : Table}, WellHomed H t → WellHomed H (patch H t fs)
   | [], _, hw => hw
-  | f :: fs, t, hw => by
+  | c :: fs, t, hw => by
     simp only [patch]
-    apply wellHomed_patch fs
+    apply wellHomed_patch hW fs
     intro s hs
     simp only [Table.set]
-    by_cases e : s = home f
-    · simp [e, home]
+    by_cases e : s = H c.1 c.2
+    · simp only [e, if_true]; rw [← e]; exact hW s c.2
     · simp only [e, if_false]; exact hw s hs
 
-theorem patch_congr : ∀ (fs : List Fn) (t t' : Table), (∀ q, q ≠ 3 → t q = t' q) → ∀ q, q ≠ 3 → patch t fs q = patch t' fs q
+theorem patch_congr (H : Home) : ∀ (fs : List Cap) (t t' : Table), (∀ q, q < 3 → t q = t' q) → ∀ q, q < 3 → patch H t fs q = patch H t' fs q
   | [], _, _, h, q, hq => h q hq
-  | f :: fs, t, t', h, q, hq => by
+  | c :: fs, t, t', h, q, hq => by
     simp only [patch]
-    apply patch_congr fs _ _ _ q hq
+    apply patch_congr H fs _ _ _ q hq
     intro q' hq'
     simp only [Table.set]
     split
     · rfl
     · exact h q' hq'
 
-theorem restore_congr : ∀ (fs : List Fn) (t t' : Table), (∀ q, q ≠ 3 → t q = t' q) → ∀ q, q ≠ 3 → restore t fs q = restore t' fs q
+theorem restore_congr (H : Home) : ∀ (fs : List Cap) (t t' : Table), (∀ q, q < 3 → t q = t' q) → ∀ q, q < 3 → restore H t fs q = restore H t' fs q
   | [], _, _, h, q, hq => h q hq
-  | f :: fs, t, t', h, q, hq => by
+  | c :: fs, t, t', h, q, hq => by
     simp only [restore]
-    apply restore_congr fs _ _ _ q hq
+    apply restore_congr H fs _ _ _ q hq
     intro q' hq'
     simp only [Table.set]
     split
     · rfl
     · exact h q' hq'
 
-theorem captured_congr (ord : List Nat) (h3 : 3 ∉ ord) (t t' : Table) (h : ∀ q, q ≠ 3 → t q = t' q) :
+theorem captured_congr (ord : List Nat) (ho : ∀ s ∈ ord, s < 3) (t t' : Table) (h : ∀ q, q < 3 → t q = t' q) :
     captured t ord = captured t' ord := by
   unfold captured
   apply List.map_congr_left
   intro s hs
-  exact h s (fun e => h3 (e ▸ hs))
+  rw [h s (ho s hs)]
+
+/-- the key step: `restore (…) (captured t ord)` puts every torch slot back to `t`, whatever happened in between to the
+slots that no captured function designates -/
+theorem restore_captured {H : Home} {ord : List Nat} (ho : ∀ s ∈ ord, s < 3) {t : Table} (hw : WellHomed H t) (t' : Table)
+    (ht' : ∀ q, q < 3 → (∀ c ∈ captured t ord, H c.1 c.2 ≠ q) → t' q = t q) (q : Nat) (hq : q < 3) :
+    restore H t' (captured t ord) q = t q := by
+  have huniq : ∀ c ∈ captured t ord, H c.1 c.2 = q → c.2 = t q := by
+    intro c hc hh
+    obtain ⟨s, hs, rfl⟩ := List.mem_map.mp hc
+    simp only at hh ⊢
+    rcases hw s (ho s hs) with h | h
+    · rw [h] at hh; rw [hh]
+    · omega
+  by_cases hex : ∃ c ∈ captured t ord, H c.1 c.2 = q
+  · exact restore_hit H _ _ q (t q) hex huniq
+  · have hno : ∀ c ∈ captured t ord, H c.1 c.2 ≠ q := fun c hc hh => hex ⟨c, hc, hh⟩
+    rw [restore_other H _ _ q hno]
+    exact ht' q hq hno
+
+theorem run_nest (H : Home) (t : Table) (ord : List Nat) (inner k : Body) :
+    run H t (.nest ord inner k) =
+      match retain H ord t inner none with
+      | (t', .ok, log1) => let (t'', o, log) := run H t' k; (t'', o, log1 ++ log)
+      | (t', .raised, log1) => (t', .raised, log1) := by
+  simp only [run, retain]
+  cases run H (patch H t (captured t ord)) inner with
+  | mk t1 ol => cases ol with
+    | mk o l => cases o <;> rfl
+
+/-- running a body never changes a torch slot -/
+theorem run_preserves' (H : Home) (hW : WrapOk H) : ∀ (b : Body) (t : Table), b.ok → WellHomed H t →
+    ∀ q, q < 3 → (run H t b).1 q = t q := by
+  intro b
+  induction b with
+  | ret => intro t _ _ q _; simp [run]
+  | raise => intro t _ _ q _; simp [run]
+  | call s k ih => intro t hb hw q hq; simp only [run]; exact ih t hb.2 hw q hq
+  | nest ord inner k ihi ihk =>
+    intro t hb hw q hq
+    obtain ⟨hord, hbi, hbk⟩ := hb
+    have hin := ihi (patch H t (captured t ord)) hbi (wellHomed_patch hW _ hw)
+    have hrest : ∀ q, q < 3 → restore H (run H (patch H t (captured t ord)) inner).1 (captured t ord) q = t q := by
+      intro q' hq'
+      apply restore_captured hord.1 hw _ _ q' hq'
+      intro q'' hq'' hno
+      rw [hin q'' hq'']
+      exact patch_other H _ _ q'' hno
+    simp only [run]
+    cases hr : run H (patch H t (captured t ord)) inner with
+    | mk t1 ol =>
+      obtain ⟨o, l⟩ := ol
+      rw [hr] at hrest
+      simp only at hrest
+      cases o with
+      | ok =>
+        simp only
+        rw [ihk _ hbk (wellHomed_congr hrest hw) q hq]
+        exact hrest q hq
+      | raised => simp only; exact hrest q hq
+  | try_ inner h k ihi ihh ihk =>
+    intro t hb hw q hq
+    obtain ⟨hbi, hbh, hbk⟩ := hb
+    have h1 := ihi t hbi hw
+    simp only [run]
+    cases hr : run H t inner with
+    | mk t1 ol =>
+      obtain ⟨o, l⟩ := ol
+      rw [hr] at h1
+      simp only at h1
+      have hw1 := wellHomed_congr h1 hw
+      cases o with
+      | ok => simp only; rw [ihk t1 hbk hw1 q hq]; exact h1 q hq
+      | raised =>
+        simp only
+        have h2 := ihh t1 hbh hw1
+        cases hr2 : run H t1 h with
+        | mk t2 ol2 =>
+          obtain ⟨o2, l2⟩ := ol2
+          rw [hr2] at h2
+          simp only at h2
+          have hw2 := wellHomed_congr h2 hw1
+          cases o2 with
+          | ok => simp only; rw [ihk t2 hbk hw2 q hq, h2 q hq]; exact h1 q hq
+          | raised => simp only; rw [h2 q hq]; exact h1 q hq
+
+/-- **`retain_restores`** (generic in the home policy) -/
+theorem retain_restores' (H : Home) (hW : WrapOk H) (ord : List Nat) (hord : ∀ s ∈ ord, s < 3) (t : Table) (hw : WellHomed H t)
+    (body : Body) (hb : body.ok) (failAt : Option Nat) : ∀ q, q < 3 → (retain H ord t body failAt).1 q = t q := by
+  intro q hq
+  unfold retain
+  cases failAt with
+  | some j =>
+    simp only
+    apply restore_captured hord hw _ _ q hq
+    intro q' _ hno
+    exact patch_other H _ _ q' (fun c hc => hno c (List.mem_of_mem_take hc))
+  | none =>
+    simp only
+    apply restore_captured hord hw _ _ q hq
+    intro q' hq' hno
+    rw [run_preserves' H hW body _ hb (wellHomed_patch hW _ hw) q' hq']
+    exact patch_other H _ _ q' hno
+
+theorem pristine_wellHomed (H : Home) (hO : OrigOk H) : WellHomed H pristine := by
+  intro s _; left; exact hO s
+
+theorem retain_history' (H : Home) (hW : WrapOk H) : ∀ (hist : List (List Nat × Body × Option Nat)) (t : Table),
+    (∀ e ∈ hist, (∀ s ∈ e.1, s < 3) ∧ e.2.1.ok) → WellHomed H t → ∀ q, q < 3 → history H t hist q = t q
+  | [], _, _, _, _, _ => rfl
+  | (ord, b, fa) :: rest, t, hh, hw, q, hq => by
+    simp only [history]
+    have he := hh (ord, b, fa) List.mem_cons_self
+    have h1 := retain_restores' H hW ord he.1 t hw b he.2 fa
+    rw [retain_history' H hW rest _ (fun e hm => hh e (List.mem_cons_of_mem _ hm)) (wellHomed_congr h1 hw) q hq]
+    exact h1 q hq
+
+/-- what a body does depends only on the torch slots -/
+theorem run_congr' (H : Home) : ∀ (b : Body) (t t' : Table), (∀ q, q < 3 → t q = t' q) → b.ok →
+    (∀ q, q < 3 → (run H t b).1 q = (run H t' b).1 q) ∧ (run H t b).2 = (run H t' b).2 := by
+  intro b
+  induction b with
+  | ret => intro t t' h _; exact ⟨by simpa [run] using h, by simp [run]⟩
+  | raise => intro t t' h _; exact ⟨by simpa [run] using h, by simp [run]⟩
+  | call s k ih =>
+    intro t t' h hc
+    obtain ⟨i1, i2⟩ := ih t t' h hc.2
+    have hs : t s = t' s := h s hc.1
+    refine ⟨by simpa [run] using i1, ?_⟩
+    simp only [run]
+    rw [hs]
+    rw [Prod.ext_iff] at i2
+    simp [i2.1, i2.2]
+  | nest ord inner k ihi ihk =>
+    intro t t' h hc
+    obtain ⟨hord, hci, hck⟩ := hc
+    have hcap := captured_congr ord hord.1 t t' h
+    have hp := patch_congr H (captured t ord) t t' h
+    obtain ⟨j1, j2⟩ := ihi _ _ hp hci
+    simp only [run]
+    rw [← hcap]
+    cases hr : run H (patch H t (captured t ord)) inner with
+    | mk t1 ol =>
+      cases hr' : run H (patch H t' (captured t ord)) inner with
+      | mk t1' ol' =>
+        rw [hr, hr'] at j1 j2
+        simp only at j1 j2
+        subst j2
+        obtain ⟨o, l⟩ := ol
+        have hrest := restore_congr H (captured t ord) t1 t1' j1
+        cases o with
+        | raised => exact ⟨by simpa using hrest, rfl⟩
+        | ok =>
+          simp only
+          obtain ⟨m1, m2⟩ := ihk _ _ hrest hck
+          refine ⟨m1, ?_⟩
+          rw [Prod.ext_iff] at m2
+          simp [m2.1, m2.2]
+  | try_ inner h k ihi ihh ihk =>
+    intro t t' hh hc
+    obtain ⟨hci, hch, hck⟩ := hc
+    obtain ⟨j1, j2⟩ := ihi t t' hh hci
+    simp only [run]
+    cases hr : run H t inner with
+    | mk t1 ol =>
+      cases hr' : run H t' inner with
+      | mk t1' ol' =>
+        rw [hr, hr'] at j1 j2
+        simp only at j1 j2
+        subst j2
+        obtain ⟨o, l⟩ := ol
+        cases o with
+        | ok =>
+          simp only
+          obtain ⟨m1, m2⟩ := ihk _ _ j1 hck
+          refine ⟨m1, ?_⟩
+          rw [Prod.ext_iff] at m2
+          simp [m2.1, m2.2]
+        | raised =>
+          simp only
+          obtain ⟨n1, n2⟩ := ihh _ _ j1 hch
+          cases hs : run H t1 h with
+          | mk t2 ol2 =>
+            cases hs' : run H t1' h with
+            | mk t2' ol2' =>
+              rw [hs, hs'] at n1 n2
+              simp only at n1 n2
+              subst n2
+              obtain ⟨o2, l2⟩ := ol2
+              cases o2 with
+              | raised => exact ⟨by simpa using n1, rfl⟩
+              | ok =>
+                simp only
+                obtain ⟨m1, m2⟩ := ihk _ _ n1 hck
+                refine ⟨m1, ?_⟩
+                rw [Prod.ext_iff] at m2
+                simp [m2.1, m2.2]
+
+/-- **A failing call is atomic.** -/
+theorem retain_atomic' (H : Home) (hW : WrapOk H) (ord1 ord2 : List Nat) (h1 : ∀ s ∈ ord1, s < 3) (h2 : ∀ s ∈ ord2, s < 3)
+    (t : Table) (hw : WellHomed H t) (b1 b2 : Body) (hb1 : b1.ok) (hb2 : b2.ok) (fa : Option Nat) :
+    let t1 := (retain H ord1 t b1 fa).1
+    (retain H ord2 t1 b2 none).2 = (retain H ord2 t b2 none).2 ∧
+      ∀ q, q < 3 → (retain H ord2 t1 b2 none).1 q = (retain H ord2 t b2 none).1 q := by
+  intro t1
+  have e1 : ∀ q, q < 3 → t1 q = t q := retain_restores' H hW ord1 h1 t hw b1 hb1 fa
+  have hcap := captured_congr ord2 h2 t1 t e1
+  have hp := patch_congr H (captured t1 ord2) t1 t e1
+  obtain ⟨r1, r2⟩ := run_congr' H b2 _ _ hp hb2
+  unfold retain
+  simp only
+  rw [← hcap]
+  cases hr : run H (patch H t1 (captured t1 ord2)) b2 with
+  | mk u ol =>
+    cases hr' : run H (patch H t (captured t1 ord2)) b2 with
+    | mk u' ol' =>
+      rw [hr, hr'] at r1 r2
+      simp only at r1 r2
+      subst r2
+      exact ⟨rfl, restore_congr H _ u u' r1⟩
+
+/-- from the pristine table a full order patches every torch slot with the wrapper of its original -/
+theorem retain_patches (H : Home) (hO : OrigOk H) (ord : List Nat) (hord : okOrd ord) : Patched (patch H pristine (captured pristine ord)) := by
+  intro s hs
+  have hmem := hord.2 s hs
+  -- general statement: patching originals over any table, slot s ends as wrap (orig s) once s occurs in the list
+  have gen : ∀ (l : List Nat) (u : Table), s ∈ l → patch H u (captured pristine l) s = Fn.wrap (Fn.orig s) := by
+    intro l
+    induction l with
+    | nil => intro u h; simp at h
+    | cons a rest ih =>
+      intro u h
+      simp only [captured, List.map_cons, patch, pristine, hO a]
+      by_cases hr : s ∈ rest
+      · exact ih _ hr
+      · have ha : s = a := by rcases List.mem_cons.mp h with h | h; exact h; exact absurd h hr
+        subst ha
+        have hno : ∀ c ∈ List.map (fun s => (s, pristine s)) rest, H c.1 c.2 ≠ s := by
+          intro c hc
+          obtain ⟨q, hq, rfl⟩ := List.mem_map.mp hc
+          simp only [pristine, hO q]
+          intro e; subst e; exact hr hq
+        have := patch_other H (List.map (fun s => (s, pristine s)) rest) (u.set s (Fn.wrap (Fn.orig s))) s hno
+        simp only [captured, pristine] at this ⊢
+        rw [this]
+        simp [Table.set]
+  exact gen ord pristine hmem
+
+theorem patched_wellHomed {H : Home} (hW : WrapOk H) {t : Table} (h : Patched t) : WellHomed H t := by
+  intro s hs; rw [h s hs]; exact hW s _
+
+/-- **Inside the context every call finds a wrapper** — at any nesting depth, under try/except, before or after inner
+contexts have exited or raised (policies that send wrappers to junk slots, like the code's). -/
+theorem run_log_wrapped' (H : Home) (hW : WrapOk H) (hJ : ∀ s f, s < 3 → 3 ≤ H s (.wrap f)) : ∀ (b : Body) (t : Table),
+    Patched t → b.ok → ∀ f ∈ (run H t b).2.2, ∃ s, s < 3 ∧ f = Fn.wrap (Fn.orig s) := by
+  intro b
+  induction b with
+  | ret => intro t _ _ f hf; simp [run] at hf
+  | raise => intro t _ _ f hf; simp [run] at hf
+  | call s k ih =>
+    intro t hp hc f hf
+    simp only [run, List.mem_cons] at hf
+    rcases hf with rfl | hf
+    · exact ⟨s, hc.1, hp s hc.1⟩
+    · exact ih t hp hc.2 f hf
+  | nest ord inner k ihi ihk =>
+    intro t hp hc f hf
+    obtain ⟨hord, hci, hck⟩ := hc
+    have hne : ∀ s, s < 3 → ∀ c ∈ captured t ord, H c.1 c.2 ≠ s := by
+      intro s hs c hcm e
+      obtain ⟨q, hq, rfl⟩ := List.mem_map.mp hcm
+      simp only at e
+      rw [hp q (hord.1 q hq)] at e
+      have := hJ q (Fn.orig q) (hord.1 q hq)
+      omega
+    have hp1 : Patched (patch H t (captured t ord)) := by
+      intro s hs
+      rw [patch_other H _ _ s (hne s hs)]; exact hp s hs
+    have hpres := run_preserves' H hW inner _ hci (patched_wellHomed hW hp1)
+    simp only [run] at hf
+    cases hr : run H (patch H t (captured t ord)) inner with
+    | mk t1 ol =>
+      obtain ⟨o, l⟩ := ol
+      have hl : ∀ g ∈ l, ∃ s, s < 3 ∧ g = Fn.wrap (Fn.orig s) := by
+        have := ihi _ hp1 hci
+        rw [hr] at this
+        exact this
+      rw [hr] at hf hpres
+      simp only at hpres
+      cases o with
+      | raised => simp only at hf; exact hl f hf
+      | ok =>
+        simp only at hf
+        have hp2 : Patched (restore H t1 (captured t ord)) := by
+          intro s hs
+          rw [restore_other H _ _ s (hne s hs), hpres s hs]
+          exact hp1 s hs
+        rcases List.mem_append.mp hf with h1 | h2
+        · exact hl f h1
+        · exact ihk _ hp2 hck f h2
+  | try_ inner h k ihi ihh ihk =>
+    intro t hp hc f hf
+    obtain ⟨hci, hch, hck⟩ := hc
+    have hpre1 := run_preserves' H hW inner t hci (patched_wellHomed hW hp)
+    have hl1 := ihi t hp hci
+    simp only [run] at hf
+    cases hr : run H t inner with
+    | mk t1 ol =>
+      obtain ⟨o, l⟩ := ol
+      rw [hr] at hf hpre1 hl1
+      simp only at hpre1 hl1
+      have hp1 : Patched t1 := fun s hs => by rw [hpre1 s hs]; exact hp s hs
+      cases o with
+      | ok =>
+        simp only at hf
+        rcases List.mem_append.mp hf with h1 | h2
+        · exact hl1 f h1
+        · exact ihk t1 hp1 hck f h2
+      | raised =>
+        simp only at hf
+        have hpre2 := run_preserves' H hW h t1 hch (patched_wellHomed hW hp1)
+        have hl2 := ihh t1 hp1 hch
+        cases hs : run H t1 h with
+        | mk t2 ol2 =>
+          obtain ⟨o2, l2⟩ := ol2
+          rw [hs] at hf hpre2 hl2
+          simp only at hpre2 hl2
+          have hp2 : Patched t2 := fun s hs' => by rw [hpre2 s hs']; exact hp1 s hs'
+          cases o2 with
+          | raised =>
+            simp only at hf
+            rcases List.mem_append.mp hf with h1 | h2
+            · exact hl1 f h1
+            · exact hl2 f h2
+          | ok =>
+            simp only at hf
+            rcases List.mem_append.mp hf with h12 | h3
+            · rcases List.mem_append.mp h12 with h1 | h2
+              · exact hl1 f h1
+              · exact hl2 f h2
+            · exact ihk t2 hp2 hck f h3
+
+
+
+/-- a policy that only ever writes torch slots (by-slot restoring) leaves every other slot alone -/
+theorem run_junk_untouched (H : Home) (hH : ∀ s f, s < 3 → H s f < 3) : ∀ (b : Body) (t : Table), b.ok →
+    ∀ q, 3 ≤ q → (run H t b).1 q = t q := by
+  intro b
+  induction b with
+  | ret => intro t _ q _; simp [run]
+  | raise => intro t _ q _; simp [run]
+  | call s k ih => intro t hb q hq; simp only [run]; exact ih t hb.2 q hq
+  | nest ord inner k ihi ihk =>
+    intro t hb q hq
+    obtain ⟨hord, hbi, hbk⟩ := hb
+    have hno : ∀ (u : Table), ∀ c ∈ captured u ord, H c.1 c.2 ≠ q := by
+      intro u c hc
+      obtain ⟨s, hs, rfl⟩ := List.mem_map.mp hc
+      have := hH s (u s) (hord.1 s hs)
+      simp only; omega
+    simp only [run]
+    have h1 := ihi (patch H t (captured t ord)) hbi q hq
+    cases hr : run H (patch H t (captured t ord)) inner with
+    | mk t1 ol =>
+      obtain ⟨o, l⟩ := ol
+      rw [hr] at h1
+      simp only at h1
+      have hrest : restore H t1 (captured t ord) q = t q := by
+        rw [restore_other H _ _ q (hno t), h1, patch_other H _ _ q (hno t)]
+      cases o with
+      | ok => simp only; rw [ihk _ hbk q hq]; exact hrest
+      | raised => simp only; exact hrest
+  | try_ inner h k ihi ihh ihk =>
+    intro t hb q hq
+    obtain ⟨hbi, hbh, hbk⟩ := hb
+    have h1 := ihi t hbi q hq
+    simp only [run]
+    cases hr : run H t inner with
+    | mk t1 ol =>
+      obtain ⟨o, l⟩ := ol
+      rw [hr] at h1
+      simp only at h1
+      cases o with
+      | ok => simp only; rw [ihk t1 hbk q hq]; exact h1
+      | raised =>
+        simp only
+        have h2 := ihh t1 hbh q hq
+        cases hr2 : run H t1 h with
+        | mk t2 ol2 =>
+          obtain ⟨o2, l2⟩ := ol2
+          rw [hr2] at h2
+          simp only at h2
+          cases o2 with
+          | ok => simp only; rw [ihk t2 hbk q hq, h2]; exact h1
+          | raised => simp only; rw [h2]; exact h1
+
+/-- **by-slot restoring restores EVERYTHING**: with saved `(module, name, value)` triples no slot at all — torch or
+otherwise — differs after the context from what it was before, for every body, nesting depth and exit path -/
+theorem retain_restores_all_bySlot' (ord : List Nat) (hord : ∀ s ∈ ord, s < 3) (t : Table) (body : Body) (hb : body.ok)
+    (failAt : Option Nat) : ∀ q, (retain homeSlot ord t body failAt).1 q = t q := by
+  intro q
+  by_cases hq : q < 3
+  · exact retain_restores' homeSlot homeSlot_wrapOk ord hord t (fun s _ => Or.inl rfl) body hb failAt q hq
+  · have hno : ∀ (u : Table), ∀ c ∈ captured u ord, homeSlot c.1 c.2 ≠ q := by
+      intro u c hc
+      obtain ⟨s, hs, rfl⟩ := List.mem_map.mp hc
+      have := hord s hs
+      simp only [homeSlot]; omega
+    unfold retain
+    cases failAt with
+    | some j =>
+      simp only
+      rw [restore_other _ _ _ q (hno t), patch_other _ _ _ q (fun c hc => hno t c (List.mem_of_mem_take hc))]
+    | none =>
+      simp only
+      rw [restore_other _ _ _ q (hno t), run_junk_untouched homeSlot (fun s _ hs => hs) body _ hb q (by omega),
+        patch_other _ _ _ q (hno t)]
+
+/-- the six iteration orders of the three-element set -/
+def orders : List (List Nat) := [[0, 1, 2], [0, 2, 1], [1, 0, 2], [1, 2, 0], [2, 0, 1], [2, 1, 0]]
+
+/-- **the code as it is leaks**: one context nested in another — whatever the two iteration orders — leaves
+`torch._functorch.vmap.wrapper` (slot 4) holding the outer wrapper after both have exited, although the three patched
+slots are back.  (Reproduced on the implementation: `hasattr(torch._functorch.vmap, 'wrapper')` False → True.) -/
+theorem nested_leaks_cur' : ∀ o1 ∈ orders, ∀ o2 ∈ orders,
+    (retain homeCur o1 pristine (.nest o2 .ret .ret) none).1 4 = Fn.wrap (Fn.orig 2) ∧
+    (retain homeCur o1 pristine (.nest o2 .ret .ret) none).1 4 ≠ pristine 4 ∧
+    ∀ q, q < 3 → (retain homeCur o1 pristine (.nest o2 .ret .ret) none).1 q = pristine q := by decide
+
+/-- a single (un-nested) context of the code as it is touches nothing but the three slots -/
+theorem single_context_clean_cur : ∀ o1 ∈ orders, ∀ q ∈ [0, 1, 2, 3, 4, 5],
+    (retain homeCur o1 pristine (.call 0 (.call 2 .raise)) none).1 q = pristine q := by decide
+
+theorem orders_ok : ∀ o ∈ orders, okOrd o := by
+  intro o ho
+  simp only [orders, List.mem_cons, List.mem_nil_iff, or_false] at ho
+  rcases ho with rfl | rfl | rfl | rfl | rfl | rfl <;>
+    exact ⟨by intro s hs; simp at hs; omega, by intro s hs; simp; omega⟩
+
+theorem depth_nestN (ord : List Nat) (n : Nat) (b : Body) : (nestN ord n b).depth = n + b.depth ∨ (nestN ord n b).depth = max n (n + b.depth) := by
+  induction n with
+  | zero => left; simp [nestN]
+  | succ n ih =>
+    left
+    simp only [nestN, Body.depth]
+    rcases ih with h | h <;> rw [h] <;> omega
+
+theorem nestN_ok (ord : List Nat) (ho : okOrd ord) : ∀ (n : Nat) (b : Body), b.ok → (nestN ord n b).ok
+  | 0, _, h => h
+  | n + 1, b, h => ⟨ho, nestN_ok ord ho n b h, trivial⟩
+
+
+theorem patch_wrapped (H : Home) : ∀ (fs : List Cap) (t : Table), Wrapped t → Wrapped (patch H t fs)
+  | [], _, h => h
+  | c :: fs, t, h => by
+    simp only [patch]
+    apply patch_wrapped H fs
+    intro s hs
+    simp only [Table.set]
+    split
+    · exact ⟨c.2, rfl⟩
+    · exact h s hs
+
+theorem restore_wrapped (H : Home) : ∀ (fs : List Cap) (t : Table), (∀ c ∈ fs, ∃ g, c.2 = Fn.wrap g) → Wrapped t → Wrapped (restore H t fs)
+  | [], _, _, h => h
+  | c :: fs, t, hc, h => by
+    simp only [restore]
+    apply restore_wrapped H fs _ (fun d hd => hc d (List.mem_cons_of_mem _ hd))
+    intro s hs
+    simp only [Table.set]
+    split
+    · exact hc c List.mem_cons_self
+    · exact h s hs
+
+theorem captured_wrapped {t : Table} {ord : List Nat} (ho : ∀ s ∈ ord, s < 3) (h : Wrapped t) : ∀ c ∈ captured t ord, ∃ g, c.2 = Fn.wrap g := by
+  intro c hc
+  obtain ⟨s, hs, rfl⟩ := List.mem_map.mp hc
+  exact h s (ho s hs)
+
+/-- **Inside a context every call finds a wrapper** — whatever the home policy: at any nesting depth (nested contexts may wrap
+the wrapper again), under try/except, before or after inner contexts exited or raised; and the table stays wrapped. -/
+theorem run_log_wrappers' (H : Home) : ∀ (b : Body) (t : Table), Wrapped t → b.ok →
+    Wrapped (run H t b).1 ∧ ∀ f ∈ (run H t b).2.2, ∃ g, f = Fn.wrap g := by
+  intro b
+  induction b with
+  | ret => intro t h _; exact ⟨h, by simp [run]⟩
+  | raise => intro t h _; exact ⟨h, by simp [run]⟩
+  | call s k ih =>
+    intro t h hc
+    obtain ⟨i1, i2⟩ := ih t h hc.2
+    refine ⟨by simpa [run] using i1, ?_⟩
+    intro f hf
+    simp only [run, List.mem_cons] at hf
+    rcases hf with rfl | hf
+    · exact h s hc.1
+    · exact i2 f hf
+  | nest ord inner k ihi ihk =>
+    intro t h hc
+    obtain ⟨hord, hci, hck⟩ := hc
+    obtain ⟨j1, j2⟩ := ihi _ (patch_wrapped H _ _ h) hci
+    simp only [run]
+    cases hr : run H (patch H t (captured t ord)) inner with
+    | mk t1 ol =>
+      obtain ⟨o, l⟩ := ol
+      rw [hr] at j1 j2
+      simp only at j1 j2
+      have hrw := restore_wrapped H _ t1 (captured_wrapped hord.1 h) j1
+      cases o with
+      | raised => exact ⟨hrw, j2⟩
+      | ok =>
+        simp only
+        obtain ⟨m1, m2⟩ := ihk _ hrw hck
+        refine ⟨m1, ?_⟩
+        intro f hf
+        rcases List.mem_append.mp hf with h1 | h2
+        · exact j2 f h1
+        · exact m2 f h2
+  | try_ inner hd k ihi ihh ihk =>
+    intro t h hc
+    obtain ⟨hci, hch, hck⟩ := hc
+    obtain ⟨j1, j2⟩ := ihi t h hci
+    simp only [run]
+    cases hr : run H t inner with
+    | mk t1 ol =>
+      obtain ⟨o, l⟩ := ol
+      rw [hr] at j1 j2
+      simp only at j1 j2
+      cases o with
+      | ok =>
+        simp only
+        obtain ⟨m1, m2⟩ := ihk t1 j1 hck
+        refine ⟨m1, fun f hf => ?_⟩
+        rcases List.mem_append.mp hf with h1 | h2
+        · exact j2 f h1
+        · exact m2 f h2
+      | raised =>
+        simp only
+        obtain ⟨n1, n2⟩ := ihh t1 j1 hch
+        cases hs : run H t1 hd with
+        | mk t2 ol2 =>
+          obtain ⟨o2, l2⟩ := ol2
+          rw [hs] at n1 n2
+          simp only at n1 n2
+          cases o2 with
+          | raised =>
+            refine ⟨n1, fun f hf => ?_⟩
+            rcases List.mem_append.mp hf with h1 | h2
+            · exact j2 f h1
+            · exact n2 f h2
+          | ok =>
+            simp only
+            obtain ⟨m1, m2⟩ := ihk t2 n1 hck
+            refine ⟨m1, fun f hf => ?_⟩
+            rcases List.mem_append.mp hf with h12 | h3
+            · rcases List.mem_append.mp h12 with h1 | h2
+              · exact j2 f h1
+              · exact n2 f h2
+            · exact m2 f h3
+
+theorem patched_wrapped {t : Table} (h : Patched t) : Wrapped t := fun s hs => ⟨_, h s hs⟩
+
 
 end Retain
 
